@@ -52,7 +52,9 @@ CALLS = ["build1", "build2", "build_modes", "rebuild", "diagonalize", "build_rai
          "hierarchy", "hierarchy_prop", "corfce_ctor", "corfce_add", "corfce_ft", "corfce_bad_raises", "specdens",
          "specdens_to_corfce", "abs_calc", "propagate", "eso", "thermal_dm", "excited_dm", "set_rwa", "convert",
          "time_to_freq", "freq_to_time", "ham_bad_raises", "trace_over_vib", "rate_matrix_prop", "dipole_coupling",
-         "mol_thermal"]
+         "mol_thermal", "fluor_calc", "lindich_calc", "model_generator", "database_specdens", "exciton_report",
+         "pure_dephasing", "dfunction_ft", "sv_propagate", "mol_excited_dm", "save_load", "ham_in_basis",
+         "rt_not_implemented_raises"]
 
 
 @st.composite
@@ -731,6 +733,61 @@ def _check_call(case, ctx):
             agg.dipole_dipole_coupling(0, 1)
         elif call == "mol_thermal":
             agg.monomers[0].get_thermal_ReducedDensityMatrix()
+        elif call == "fluor_calc":
+            calc = qr.FluorSpectrumCalculator(ta, system=agg)
+            calc.bootstrap(rwa=float(orc.convert(numpy.mean(spec["E"]), "1/cm", u)))
+            calc.calculate()
+        elif call == "lindich_calc":
+            from quantarhei.spectroscopy.linear_dichroism import LinDichSpectrumCalculator
+            calc = LinDichSpectrumCalculator(ta, system=agg)
+            calc.bootstrap(rwa=float(orc.convert(numpy.mean(spec["E"]), "1/cm", u)))
+            calc.calculate()
+        elif call == "model_generator":
+            import io, contextlib
+            from quantarhei.models.modelgenerator import ModelGenerator
+            with contextlib.redirect_stdout(io.StringIO()):
+                mg = ModelGenerator()
+                mg.get_Aggregate(name="dimer-1").build()
+                mg.get_Aggregate_with_environment(name="dimer-1_env", timeaxis=ta).build()
+        elif call == "database_specdens":
+            from quantarhei.models.spectral_densities.renger_2002 import renger_2002a
+            from quantarhei.models.spectral_densities.wendling_2000 import wendling_2000a
+            renger_2002a().get_SpectralDensity(ta)
+            wendling_2000a().get_SpectralDensity(ta)
+        elif call == "exciton_report":
+            import io
+            agg.diagonalize()
+            agg.exciton_report(file=io.StringIO())
+            agg.report_on_expansion(file=io.StringIO())
+        elif call == "pure_dephasing":
+            agg.get_PureDephasing()
+        elif call == "dfunction_ft":
+            f = qr.DFunction(ta, numpy.exp(-ta.data / 50.0) + 0j)
+            f.get_Fourier_transform().get_inverse_Fourier_transform()
+        elif call == "sv_propagate":
+            H = agg.get_Hamiltonian()
+            sv = qr.StateVector(H.dim)
+            sv.data[1] = 1.0
+            qr.StateVectorPropagator(ta, H).propagate(sv)
+        elif call == "mol_excited_dm":
+            agg.monomers[0].get_excited_density_matrix()
+        elif call == "save_load":
+            import tempfile, shutil, os
+            d = tempfile.mkdtemp(prefix="qv-c05-")
+            try:
+                fresh = gens.make_aggregate(qr, spec, build=False)
+                fresh.save(os.path.join(d, "a.qrp"))
+                qr.load_parcel(os.path.join(d, "a.qrp"))
+            finally:
+                shutil.rmtree(d, ignore_errors=True)
+        elif call == "ham_in_basis":
+            H = agg.get_Hamiltonian()
+            H.copy()
+            str(H)
+            with qr.eigenbasis_of(H):
+                H.data
+        elif call == "rt_not_implemented_raises":
+            agg.get_RelaxationTensor(ta, relaxation_theory="modified_Redfield")
         else:
             raise HarnessError("call " + call)
 
